@@ -7,8 +7,8 @@ fn main() {
     let r = std::panic::catch_unwind(|| match args[1].as_str() {
         "exec" => format!("{:?}", graphql_syntax::parse_executable(doc, SourceLocationKey::generated()).map_err(|e| e.len())),
         "sdl" => format!("{:?}", graphql_syntax::parse_schema_document(doc, SourceLocationKey::generated()).map_err(|e| e.len())),
-        "schema" => format!("{:?}", graphql_schema_parser::parse_schema(doc, TextSource { relative_path_to_source_file: "dummy".intern().into(), span: None }).map_err(|e| e.to_string())),
-        "ext" => format!("{:?}", graphql_schema_parser::parse_schema_extensions(doc, TextSource { relative_path_to_source_file: "dummy".intern().into(), span: None }).map_err(|e| e.to_string())),
+        "schema" => format!("{:?}", graphql_schema_parser::parse_schema(doc, TextSource { relative_path_to_source_file: "dummy".intern().into(), span: None }).map_err(|e| e.0.message.clone())),
+        "ext" => format!("{:?}", graphql_schema_parser::parse_schema_extensions(doc, TextSource { relative_path_to_source_file: "dummy".intern().into(), span: None }).map_err(|e| e.0.message.clone())),
         _ => "?".into(),
     });
     println!("{:?}", r.map_err(|_| "PANIC"));
